@@ -247,3 +247,21 @@ theorem wcont_ops_agree (n k : Nat) (es : List (Nat × WTx)) :
   restore_then_continue _ k (blocksOf_sorted n es).1 (blocksOf_sorted n es).2
 
 end ElaVerif.WalletCont
+
+namespace ElaVerif.WalletCont
+
+/-- What the data directory holds when a process is stopped after any `k` blocks: the default file — the
+    one a restart loads — labelled `h` holds exactly the state after the blocks up to height `h`
+    (not the state of some later moment). -/
+theorem default_file_state (bs : List Block) (k : Nat) (hs : Sorted bs) (hpos : ∀ b ∈ bs, 0 < b.h)
+    (h : Nat) (s : WSt) (hd : (run .fresh (bs.take k)).dflt = some (h, s)) :
+    s = applyAll .init (bs.filter (fun b => decide (b.h ≤ h))) := by
+  have hbs : bs = [] ++ bs.take k ++ bs.drop k := by simp
+  have hinv0 : Inv bs .fresh [] := ⟨rfl, by simp [Mgr.fresh], by simp [Mgr.fresh]⟩
+  have hck0 : ∀ b ∈ bs.take k ++ bs.drop k, Mgr.fresh.ck < b.h := by
+    intro b hb
+    rw [List.take_append_drop] at hb
+    exact hpos b hb
+  exact (run_inv bs (bs.take k) [] (bs.drop k) .fresh hbs hs hinv0 hck0).dflt (h, s) hd
+
+end ElaVerif.WalletCont
